@@ -4,6 +4,7 @@ import (
 	"bytes"
 	"context"
 	"math"
+	"sync"
 	"time"
 
 	"github.com/pkg/errors"
@@ -27,6 +28,8 @@ type TempPool struct {
 	cleanRemovedNewOperationsDeep     int
 	cleanRemovedProposalDeep          int
 	cleanRemovedBallotDeep            int
+	setProposalLock                   sync.Mutex
+	setBallotLock                     sync.Mutex
 }
 
 func NewTempPool(
@@ -160,6 +163,10 @@ func (db *TempPool) ProposalByPoint(
 
 func (db *TempPool) SetProposal(pr base.ProposalSignFact) (bool, error) {
 	e := util.StringError("put proposal")
+
+	// NOTE first proposal wins; exists-then-put should not be interleaved
+	db.setProposalLock.Lock()
+	defer db.setProposalLock.Unlock()
 
 	var pst *leveldbstorage.PrefixStorage
 
@@ -775,6 +782,10 @@ func (db *TempPool) Ballot(point base.Point, stage base.Stage, isSuffrageConfirm
 
 func (db *TempPool) SetBallot(bl base.Ballot) (bool, error) {
 	e := util.StringError("put ballot")
+
+	// NOTE first ballot wins; exists-then-put should not be interleaved
+	db.setBallotLock.Lock()
+	defer db.setBallotLock.Unlock()
 
 	var pst *leveldbstorage.PrefixStorage
 
